@@ -4,7 +4,7 @@
 //!   (wire <mode> <svc> <input> <dec>)
 //!     mode  = whole | feed
 //!     svc   = (svc x<vendor> x<product> x<version> x<url> (ifaces <iface>*))
-//!     iface = (script x<name> x<desc>) | (gen)
+//!     iface = (script x<name> x<desc>) | (gen x<name> x<idl text on disk>)
 //!     input = (reads b<chunk>*)            the reader delivers these chunks
 //!     dec   = (dec (b<frame> <decoded>)*)  what serde_json::from_slice::<Request> says
 //!     decoded = bad | (req <more> <oneway> <upgrade> x<method> <params>)
@@ -27,6 +27,23 @@ pub mod vtest {
     include!(concat!(env!("OUT_DIR"), "/org.example.vtest.rs"));
 }
 
+pub mod crlf {
+    #![allow(non_camel_case_types, non_snake_case, dead_code, clippy::all)]
+    include!(concat!(env!("OUT_DIR"), "/org.example.crlf.rs"));
+}
+
+/// the interface definition texts as they are on disk: what GetInterfaceDescription must return
+pub const VTEST_IDL: &str = include_str!("../../idl/org.example.vtest.varlink");
+pub const CRLF_IDL: &str = include_str!("../../idl/org.example.crlf.varlink");
+
+pub struct CrlfImpl;
+
+impl crlf::VarlinkInterface for CrlfImpl {
+    fn ping(&self, call: &mut dyn crlf::Call_Ping, token: String) -> varlink::Result<()> {
+        call.reply(token)
+    }
+}
+
 pub struct WireSuite;
 
 // ---------------------------------------------------------------------------
@@ -42,6 +59,12 @@ pub struct ScriptIface {
     pub echo_up: bool,
 }
 
+/// The interface registered under this name has a segment-wise upgraded handler: it consumes only
+/// what is available (one `fill_buf`) per invocation and returns, instead of reading to EOF, so the
+/// listen loop calls it once per arriving segment.  (Keyed on the name so that the struct keeps its
+/// shape for the other suites that build it.)
+pub const SEGMENT_WISE_IFACE: &str = "up.seg";
+
 pub fn leak(s: &str) -> &'static str {
     Box::leak(s.to_string().into_boxed_str())
 }
@@ -55,7 +78,14 @@ impl varlink::Interface for ScriptIface {
     }
     fn call_upgraded(&self, _call: &mut Call, bufreader: &mut dyn BufRead) -> varlink::Result<Vec<u8>> {
         let mut v = Vec::new();
-        let _ = bufreader.read_to_end(&mut v);
+        if self.name == SEGMENT_WISE_IFACE {
+            if let Ok(b) = bufreader.fill_buf() {
+                v.extend_from_slice(b);
+            }
+            bufreader.consume(v.len());
+        } else {
+            let _ = bufreader.read_to_end(&mut v);
+        }
         self.seen.lock().unwrap().extend_from_slice(&v);
         if self.echo_up {
             use std::io::Write;
@@ -170,14 +200,18 @@ pub fn build_service_opts(svc: &Sx, echo_up: bool) -> Built {
     for i in &l[5].as_list().unwrap()[1..] {
         let il = i.as_list().unwrap();
         match il[0].as_atom().unwrap() {
-            "script" => ifaces.push(Box::new(ScriptIface {
+            "script" | "script-avail" => ifaces.push(Box::new(ScriptIface {
                 name: leak(&il[1].as_str().unwrap()),
                 desc: leak(&il[2].as_str().unwrap()),
                 seen: seen.clone(),
                 calls: calls.clone(),
                 echo_up,
             })),
-            "gen" => ifaces.push(Box::new(vtest::new(Box::new(VTestImpl)))),
+            "gen" => match il[1].as_str().unwrap().as_str() {
+                "org.example.vtest" => ifaces.push(Box::new(vtest::new(Box::new(VTestImpl)))),
+                "org.example.crlf" => ifaces.push(Box::new(crlf::new(Box::new(CrlfImpl)))),
+                other => panic!("generated interface {}", other),
+            },
             other => panic!("iface kind {}", other),
         }
     }
@@ -465,7 +499,8 @@ pub fn svc_cfg(vendor: &str, ifaces: &[(&str, &str)], gen: bool) -> SvcCfg {
         il.push(sx::tagged("script", vec![sx::xs(n), sx::xs(d)]));
     }
     if gen {
-        il.push(sx::list(vec![sx::atom("gen")]));
+        il.push(sx::tagged("gen", vec![sx::xs("org.example.vtest"), sx::xs(VTEST_IDL)]));
+        il.push(sx::tagged("gen", vec![sx::xs("org.example.crlf"), sx::xs(CRLF_IDL)]));
     }
     SvcCfg {
         sx: sx::tagged(
@@ -475,6 +510,23 @@ pub fn svc_cfg(vendor: &str, ifaces: &[(&str, &str)], gen: bool) -> SvcCfg {
         scripts: ifaces.iter().map(|x| x.0.to_string()).collect(),
         has_gen: gen,
     }
+}
+
+/// configurations for the socket suites: the in-memory ones plus an interface whose upgraded
+/// handler returns after every available segment
+pub fn socket_configs() -> Vec<SvcCfg> {
+    let mut v = configs();
+    let mut c = svc_cfg("v4", &[("up.seg", "segment-wise upgraded handler")], false);
+    // patch the interface kind
+    if let Sx::List(l) = &mut c.sx {
+        if let Sx::List(il) = &mut l[5] {
+            if let Sx::List(one) = &mut il[1] {
+                one[0] = sx::atom("script-avail");
+            }
+        }
+    }
+    v.push(c);
+    v
 }
 
 pub fn configs() -> Vec<SvcCfg> {
@@ -628,7 +680,7 @@ pub fn gen_request(rng: &mut Rng, cfg: &SvcCfg, token: &str) -> GenReq {
             _ => {
                 kind.push_str(":registered");
                 let mut names: Vec<String> = cfg.scripts.clone();
-                if cfg.has_gen { names.push("org.example.vtest".into()); }
+                if cfg.has_gen { names.push("org.example.vtest".into()); names.push("org.example.crlf".into()); }
                 if names.is_empty() { names.push("org.varlink.service".into()); }
                 let n = rng.pick(&names).clone();
                 v["parameters"] = json!({"interface": n, "extra": token});
@@ -670,6 +722,13 @@ pub fn gen_request(rng: &mut Rng, cfg: &SvcCfg, token: &str) -> GenReq {
                 }
             }
         }
+    } else if choice < 77 && cfg.has_gen {
+        kind = "gen:crlf".to_string();
+        v = match rng.below(3) {
+            0 => json!({"method":"org.example.crlf.Ping","parameters":{"token": token}}),
+            1 => json!({"method":"org.example.crlf.Pong","parameters":{"token": token}}),
+            _ => json!({"method":"org.example.crlf.Ping","parameters":{"token": 3}}),
+        };
     } else if choice < 85 {
         kind = "unknown-iface".to_string();
         let base = *rng.pick(&["no.such", "a", "a.b.d", "org.varlink.servic", "org.varlink.service.x", "a.b-", "ü.é"]);
